@@ -176,6 +176,8 @@ def run(chk):
     chk.rule("ZERASE", "the USINGZ copies of the offset code equal the plain code after erasing Z-only constructs")
     chk.rule("GROUP.strip-closed", "Group::Group strips a closing vertex (last == first) exactly for EndType::Polygon and EndType::Joined - for "
              "Butt / Square / Round ends it is the end point of the last segment")
+    chk.rule("LIMIT.rederived", "the miter threshold temp_lim_ (derived from MiterLimit) is written by every ClipperOffset::Execute overload before "
+             "a join reads it: the join factor of this call is the one of the limit in force now")
     chk.rule("CAP.table", "start and end cap: Butt->DoBevel(i,i), Round->DoRound(i,i,PI), Square->DoSquare(i,i)")
     worlds = [{"deltaCallback64_": False}, {"deltaCallback64_": True}]
     from ..engines import e6_siblings as e6
@@ -202,6 +204,15 @@ def run(chk):
             raise AnalysisBroken("group loop of ExecuteInternal not found")
         e2.rule_loop(eng, chk, cfg, ei, gl[0], OFF, worlds, "group loop of ClipperOffset::ExecuteInternal",
                      extra_allow={"norms": "only passed to the user's delta callback (reported under C12)"})
+        # the join/cap factor bound ("nothing lies farther than |delta| times the join factor"): the miter threshold derived from the
+        # MiterLimit option is re-derived by every Execute before any join reads it, so a limit set through the setter is honoured
+        LIM = dict(OFF)
+        LIM["dbu"] = {"temp_lim_": 1}
+        LIM["allow"] = dict(OFF["allow"])
+        for k in OFF["dbu"]:
+            if k not in LIM["dbu"]:
+                LIM["allow"][k] = "decided under C12"
+        e2.rule_dbu(eng, chk, cfg, db.find("ClipperOffset::Execute"), LIM, worlds, rule="LIMIT.rederived")
         _delta_symmetry(db, chk, cfg)
         _cap_tables(db, chk, cfg)
         e12.group_strip_rule(db, chk, cfg)
